@@ -10,7 +10,7 @@ def s1(test, qchecks, tchecks, qshards=4, tshards=16, timeout_q=240, timeout_t=1
 
 
 TESTS = {
-    "C01": [s1("TestC01_S1Conformance", 40000, 250000, qshards=8), s1("TestC01_S1Mid", 3000, 40000, timeout_t=2400)],
+    "C01": [s1("TestC01_S1Conformance", 40000, 250000, qshards=8), s1("TestC01_S1Mid", 3000, 40000, timeout_t=2400), s1("TestC01_KeyTypes", 4000, 60000, timeout_t=2400)],
     "C02": [s1("TestC02_Linearizable", 600, 10000, qshards=8, timeout_t=3000)],
     "C03": [s1("TestC03_S1Visibility", 40000, 250000, qshards=6), s1("TestC03_S4Phases", 300, 3000, timeout_t=2400)],
     "C04": [s1("TestC04_S1Bound", 30000, 200000), s1("TestC04_S1Burst", 1000, 10000), s1("TestC04_S3Bound", 5000, 60000, timeout_t=2400), s1("TestC04_S4Bound", 300, 3000, timeout_t=2400), s1("TestC04_S1Mid", 3000, 40000, timeout_t=2400)],
